@@ -61,7 +61,7 @@ FRONT = ["erasurecode", "helpers", "preproc", "postproc", "crc32alt", "be_null",
 BASE_FLAGS = ["--unwinding-assertions", "--pointer-check", "--bounds-check", "--div-by-zero-check",
               "--signed-overflow-check", "--undefined-shift-check",
               "--drop-unused-functions", "--max-field-sensitivity-array-size", "200", "--object-bits", "10",
-              "--no-malloc-may-fail", "--json-ui", "--verbosity", "4"]
+              "--no-malloc-may-fail", "--json-ui", "--verbosity", "8"]
 LIBC_UNWIND = {"vin_bytes.0": 130, "vin_bytes.1": 130, "strlen.0": 70, "strcpy.0": 70, "strcmp.0": 40, "strdup.0": 70,
                "liberasurecode_init.0": 12, "liberasurecode_exit.0": 12,
                "rs_galois_init_tables.0": 16, "gf16_mul_u.0": 17, "gf16_inv_u.0": 17,
@@ -97,6 +97,10 @@ class Res:
     wall: float = 0.0
     rss_kb: int = 0
     solver_s: float = 0.0
+    ssa_steps: int = 0
+    sat_vars: int = 0
+    sat_clauses: int = 0
+    nprops: int = 0
     note: str = ""
     binary: str = ""
     artefacts: list = field(default_factory=list)
@@ -361,9 +365,15 @@ def run_ob(ctx, ob):
         r.verdict, r.note = "inconclusive", f"timeout after {ob.timeout}s (both back ends)"
         return r
     results, msgs = parse_cbmc_json(out)
-    m = re.search(r"Runtime decision procedure: ([0-9.]+)s", out)
+    r.solver_s = sum(float(x) for x in re.findall(r"Runtime decision procedure: ([0-9.]+)s", out))
+    m = re.search(r"size of program expression: (\d+) steps", out)
     if m:
-        r.solver_s = float(m.group(1))
+        r.ssa_steps = int(m.group(1))
+    vc = re.findall(r"(\d+) variables, (\d+) clauses", out)
+    if vc:
+        r.sat_vars, r.sat_clauses = max(int(a) for a, _ in vc), max(int(b) for _, b in vc)
+    if results is not None:
+        r.nprops = len(results)
     if results is None:
         r.verdict = "inconclusive" if ("std::bad_alloc" in (out + err) or "Out of memory" in (out + err) or rc in (-9, 137, -6, 134)) else "error"
         errs = " | ".join(re.findall(r'"messageText": "([^"]*)",\s*"messageType": "ERROR"', out))
@@ -642,6 +652,11 @@ def execute(ctx, obs, native_steps=(), assumptions=(), trusted=(), extra_cov=Non
         "query_wall_s": round(sum(r.wall for r in results), 2),
         "max_rss_kb": max([r.rss_kb for r in results] + [0]),
         "traces_validated_against_impl": replayed,
+        "states": max(1, sum(r.ssa_steps for r in results)),
+        "transitions": max(1, sum(r.nprops for r in results)),
+        "states_transitions_meaning": "states = total size of the symbolic executions (CBMC 'size of program expression' in SSA steps, summed over the queries); transitions = total number of assertions (property assertions + CBMC safety checks + unwinding assertions) decided by the solver; both measured on this run",
+        "sat_variables_max": max([r.sat_vars for r in results] + [0]),
+        "sat_clauses_max": max([r.sat_clauses for r in results] + [0]),
         "native_steps": native_info,
         "checker_cmd": f"./check {ctx.prop} --tier {ctx.tier}",
         "trusted_base": list(trusted),
@@ -651,8 +666,10 @@ def execute(ctx, obs, native_steps=(), assumptions=(), trusted=(), extra_cov=Non
         cov.update(extra_cov)
     ev = {"property_id": ctx.prop, "tier": ctx.tier, "seed": ctx.seed, "level": "model_checking", "coverage": cov,
           "assumptions": list(assumptions), "wall_s": round(time.time() - ctx.t0, 2), "violations": nviol}
-    os.makedirs(os.path.join(VERIF, "evidence"), exist_ok=True)
-    with open(os.path.join(VERIF, "evidence", f"{ctx.prop}.json"), "w") as f:
+    # runs against a scratch tree (VERIF_REPO: seeded changes) must not overwrite the evidence of /repo itself
+    evdir = os.path.join(VERIF, "evidence") if os.path.realpath(REPO) == "/repo" and not os.environ.get("VERIF_EVIDENCE_DIR") else os.environ.get("VERIF_EVIDENCE_DIR", "/tmp/vlogs/evidence_scratch")
+    os.makedirs(evdir, exist_ok=True)
+    with open(os.path.join(evdir, f"{ctx.prop}.json"), "w") as f:
         json.dump(ev, f, indent=1)
     ctx.say(f"[{ctx.prop}] obligations={len(results)} discharged={len(discharged)} known={len(known_hit)} ub_only={len(ub_only)} "
             f"inconclusive={len(inconcl)} model_errors={len(model_err)} violations={nviol} wall={time.time()-ctx.t0:.1f}s")
